@@ -267,3 +267,20 @@ Qed.
 
 Theorem empty_sentence_counts_nothing d o w : sentence_events d o w [] = Done [].
 Proof. reflexivity. Qed.
+
+(** [index_from] pairs every element with its position *)
+Lemma index_from_nth_error {A} (l : list A) : forall k i x, In (i, x) (index_from k l) ->
+  nth_error l (N.to_nat i - N.to_nat k) = Some x /\ (k <= i)%N.
+Proof.
+  induction l as [|y l IH]; intros k i x H; simpl in H; [destruct H|].
+  destruct H as [H|H].
+  - inversion H; subst. split; [now rewrite Nat.sub_diag|lia].
+  - destruct (IH _ _ _ H) as [H2 H1]. split; [|lia].
+    replace (N.to_nat i - N.to_nat k)%nat with (S (N.to_nat i - N.to_nat (N.succ k))) by lia. exact H2.
+Qed.
+Lemma nth_error_index_from_gen {A} (l : list A) : forall k j x, nth_error l j = Some x -> In ((k + N.of_nat j)%N, x) (index_from k l).
+Proof.
+  induction l as [|y l IH]; intros k j x H; destruct j; simpl in *; try discriminate.
+  - inversion H; subst. left. f_equal. lia.
+  - right. replace (k + N.pos (Pos.of_succ_nat j))%N with (N.succ k + N.of_nat j)%N by lia. now apply IH.
+Qed.
